@@ -303,10 +303,14 @@ func (g *Gen) applyContract(fr *Frame, st *State, con *FuncContract, sig *types.
 		}
 		a := args[i]
 		t := a.T
+		var ip *Ptr
 		if t == "" && a.P != nil {
 			t = g.refOfOrAddr(a)
+			if !((a.P.Kind == PHeapStruct || a.P.Kind == PHeapArr) && len(a.P.Path) == 0) {
+				ip = a.P
+			}
 		}
-		env.vars[n] = CV{T: t, Ty: ptypes[i], Sort: "Int"}
+		env.vars[n] = CV{T: t, Ty: ptypes[i], Sort: "Int", P: ip}
 	}
 	// variadic: the last arg is already a slice
 	for _, r := range con.Requires {
@@ -358,6 +362,9 @@ func (g *Gen) applyContract(fr *Frame, st *State, con *FuncContract, sig *types.
 	}
 	post.old = pre
 	for _, en := range con.Ensures {
+		if en.Local {
+			continue
+		}
 		g.assume(st, post.evalBool(en.Expr))
 	}
 	switch len(rv) {
